@@ -12,6 +12,7 @@
 (*   id      another claimed identifier                                     *)
 (*   own     sign() with the signer's own entry missing / different         *)
 (*   ident   a package containing an identity commitment                    *)
+(*   relabel a share filed under an identifier outside the package          *)
 (* Each step carries `gen`, the structural (provenance-level) prediction;   *)
 (* where the exact outcome differs from it the toy field produced a         *)
 (* coincidence, which the driver counts and bounds.                         *)
@@ -123,6 +124,11 @@ ChooseProbe ==
        \/ /\ pr = "ident"
           /\ \E j \in SSet, i \in SSet, w \in {"identD", "identE"}, call \in {"sign", "vshare", "agg"} :
                sc' = sc @@ [probe |-> [kind |-> pr, j |-> j, i |-> i, w |-> w, call |-> call]]
+       \* a share filed under an identifier that is not in the package (same number of shares)
+       \/ /\ pr = "relabel"
+          /\ \E i \in SSet, x \in (IdSet \ SSet) \cup {CHOOSE u \in ZqNZ : u \notin IdSet},
+                mode \in {"Disabled", "FirstCheater", "AllCheaters"} :
+               sc' = sc @@ [probe |-> [kind |-> pr, i |-> i, x |-> x, mode |-> mode]]
   /\ pc' = <<"p1", 0>>
   /\ UNCHANGED fvars
 
@@ -162,6 +168,8 @@ Probe1 ==
             ELSE ActTamperComm(<<"commX", PR.i>>, <<"commA", PR.i>>, PR.w, 1) /\ pc' = <<"p2", 0>>
        [] PR.kind = "ident" ->
             ActTamperComm(<<"commX", PR.j>>, <<"commA", PR.j>>, PR.w, 0) /\ pc' = <<"p2", 0>>
+       [] PR.kind = "relabel" ->
+            ActAggregate(<<"sig", 0>>, PKGA, (PR.x :> Z("A", PR.i)) @@ [i \in SSet \ {PR.i} |-> Z("A", i)], PKP, PR.mode) /\ Done
 
 \* step 2: build the substituted package
 Probe2 ==
@@ -222,8 +230,8 @@ GenAccept ==
 \* refuses a package with an identity commitment -- exactly, no coincidence
 OwnDiffers == <<env[PKGX].comms[PR.i].D, env[PKGX].comms[PR.i].E>> # <<env[<<"nonA", PR.i>>].D, env[<<"nonA", PR.i>>].E>>
 InvRefusals ==
-  (Probing /\ pc[1] = "done" /\ PR.kind \in {"own", "ident"}) =>
-     /\ (PR.kind = "ident") => ~last.res.ok
+  (Probing /\ pc[1] = "done" /\ PR.kind \in {"own", "ident", "relabel"}) =>
+     /\ (PR.kind \in {"ident", "relabel"}) => ~last.res.ok
      /\ (PR.kind = "own" /\ PR.w = "missing" /\ last.op = "sign") =>
             /\ ~last.res.ok
             /\ last.res.err \in {"MissingCommitment", "IncorrectNumberOfCommitments"}
